@@ -99,6 +99,7 @@ def gen_case(rng, N):
       if kap > 1e8:
         continue
     return {"N": N, "n": n, "pad": pad, "p": p, "eps": eps, "rel": rel, "method": method, "k": k,
+            "lobpcg_iters": int(rng.choice([0, 0, 30])) if method == "lobpcg" else 0,
             "family": fam, "A": A}
   return None
 
@@ -106,20 +107,20 @@ def gen_case(rng, N):
 _JIT = {}
 
 
-def call_root(A_padded, p, eps, rel, method, k, padding_start, dtype):
+def call_root(A_padded, p, eps, rel, method, k, padding_start, dtype, lobpcg_iters=0):
   import jax
   import jax.numpy as jnp
   from precondition import distributed_shampoo as ds
-  key = (A_padded.shape[0], rel, method, k, str(dtype), padding_start is None)
+  key = (A_padded.shape[0], rel, method, k, str(dtype), padding_start is None, lobpcg_iters)
   if key not in _JIT:
     if padding_start is None:
       def f(a, pp, e):
         return ds.matrix_inverse_pth_root(a, pp, ridge_epsilon=e, relative_matrix_epsilon=rel,
-                                          lobpcg_topk_precondition=k, eigh=(method == "eigh"))
+                                          lobpcg_topk_precondition=k, lobpcg_max_iter=lobpcg_iters, eigh=(method == "eigh"))
     else:
       def f(a, pp, e, ps):
         return ds.matrix_inverse_pth_root(a, pp, ridge_epsilon=e, relative_matrix_epsilon=rel,
-                                          lobpcg_topk_precondition=k, padding_start=ps,
+                                          lobpcg_topk_precondition=k, lobpcg_max_iter=lobpcg_iters, padding_start=ps,
                                           eigh=(method == "eigh"))
     _JIT[key] = jax.jit(f)
   a = jnp.asarray(A_padded, dtype)
@@ -209,12 +210,15 @@ def check_call(c, X, metrics, rec, wit, in_dtype, compute_f64, source="direct"):
     rec.count("nan_error_reported")
     return
   if err < THRESH:
-    if not compute_f64 or (in_dtype != "float64" and kappa > 1e4):
+    if (not compute_f64 and kappa > 1e2) or (in_dtype != "float64" and kappa > 1e4):
       rec.count("accepted_structural_only")
       return
     res = R.residual(Xr, A, d, p)
     # float32 inputs computed in float64: the root is rounded to float32 on return, u = 2^-24
     slack = 64 * n * p * (u if in_dtype == "float64" else 2.0 ** -24) * kappa + extra + err * 2.0 ** -22   # reported figure is a float32
+    if not compute_f64:
+      slack = 64 * n * p * 2.0 ** -24 * kappa * 4 + extra + err * 2.0 ** -22 + 1e-5   # float32 arithmetic throughout
+      rec.count("residual_checked_float32_compute")
     if in_dtype != "float64":
       rec.count("residual_checked_float32_output")
     rec.count("residual_checked")
@@ -247,7 +251,7 @@ def check_direct(c, rec, x64):
     use_ps = True
   try:
     X, m = call_root(Ap.astype(npdt), c["p"], c["eps"], c["rel"], c["method"], c["k"],
-                     n if use_ps else None, npdt)
+                     n if use_ps else None, npdt, c.get("lobpcg_iters", 0))
   except Exception as e:  # pylint: disable=broad-except
     import traceback
     fr = [f for f in traceback.extract_tb(e.__traceback__) if "/precondition/" in f.filename]
